@@ -8,6 +8,7 @@ Line protocol for the C05 model (one s-expression in, one out):
   (macro NAME E) -> (ok E') | (err KIND)          E' = the asserted statement
   (den E)        -> none | (n K) | (i K) | (q NUM DEN) | (b T|F)     (atoms: no value)
   (wt E)         -> T | F
+  (ineq REL N D N D N D N D) -> T | F   REL = eq ne lt le gt ge; bounds lo1 hi1 lo2 hi2 as num den
 NUM = (int K) | (frac NUM DEN)
 E   = (zero T) (one T) (bit0 E) (bit1 E) (suc E) (ofnat T E) (ofint E) (plus T E E) (minus T E E)
       (times T E E) (uminus T E) (divide E E) (inverse E) (power T E E) (eq T E E)
@@ -142,6 +143,17 @@ def handle (line : String) : String :=
     match exprOf e with
     | some x => toString (valTo (if hasAtom x then none else den noVal x))
     | none => "bad-op"
+  | some (.list [.atom "ineq", .atom rel, a, b, c, d, e, f, g, h]) =>
+    let r : Option Rel := match rel with
+      | "eq" => some .eq | "ne" => some .ne | "lt" => some (.cmp .lt) | "le" => some (.cmp .le)
+      | "gt" => some (.cmp .gt) | "ge" => some (.cmp .ge) | _ => none
+    let q (n d : Sexp) : Option Rat := do
+      let n ← n.toInt?
+      let d ← d.toNat?
+      if d == 0 then none else some (mkRat n d)
+    match r, q a b, q c d, q e f, q g h with
+    | some r, some lo1, some hi1, some lo2, some hi2 => toString (Sexp.ofBool (intervalAccept r lo1 hi1 lo2 hi2))
+    | _, _, _, _, _ => "bad-op"
   | some (.list [.atom "wt", e]) =>
     match exprOf e with
     | some x => toString (Sexp.ofBool (wt x))
